@@ -23,7 +23,7 @@ PROPS = {
     },
     "C07": {
         "lean": ["Stackage.Props.C07"],
-        "streams": [{"name": "paths", "quick": 3000, "thorough": 60000}],
+        "streams": [{"name": "paths", "quick": 3000, "thorough": 60000}, {"name": "condhist", "quick": 1500, "thorough": 30000}],
         "rule": "random trees (depth <= 3 quick / 4 thorough, width <= 4; nested stacks as native / alias / alias-with-String / pointer, Conditions with stack and "
                 "non-stack expressions, nil slots, zero-valued Stack elements, per-node negative/forward index options) x 1-6 paths each of length 0..depth+2 with "
                 "indices from [-1,5] plus MinInt/MaxInt; the value (structurally described) and the flag compared; non-trivial = some path has >= 2 indices",
@@ -92,7 +92,7 @@ PROPS = {
     },
     "C17": {
         "lean": ["Stackage.Props.C17"],
-        "streams": [{"name": "initonly", "quick": 1500, "thorough": 30000}, {"name": "inert", "quick": 4000, "thorough": 80000}, {"name": "closures", "quick": 1500, "thorough": 30000},
+        "streams": [{"name": "condhist", "quick": 1500, "thorough": 30000}, {"name": "initonly", "quick": 1500, "thorough": 30000}, {"name": "inert", "quick": 4000, "thorough": 80000}, {"name": "closures", "quick": 1500, "thorough": 30000},
                     {"name": "resets", "quick": 2000, "thorough": 40000}],
         "rule": "every exported method of Stack and Condition (reflection) x generated arguments x receiver states {zero value, freed}; the result must be the zero result of the "
                 "Lean table and the receiver must stay uninitialised; sequences of 1-4 calls. resets: any configuration (kind, capacity, options, texts, policies) x a history "
@@ -409,6 +409,19 @@ def projection(pid, stream):
     if pid == "C03" and stream == "sched":
         # "no sequence of calls ever makes Len exceed k", simultaneous calls included: the final length (and content) of the shared stack
         return lambda s: " ".join(st for st in s.split(" ; ") if st.startswith("F "))
+    if pid == "C07" and stream == "condhist":
+        # Traverse through a Condition into the Stack it holds, after every step of a setter history (accepted and refused assignments)
+        return lambda s: " ; ".join(" ".join(t for t in st.split(" ") if t[:1] == "T") for st in s.split(" ; "))
+    if pid == "C17" and stream == "condhist":
+        # Free: the handle it is called on becomes zero (unless read-only) and answers as a zero Condition; a copy of the handle kept
+        # elsewhere goes on answering (no panic) with what the instance held
+        def _c17_cond(s):
+            out = []
+            for st in s.split(" ; "):
+                z = "zero" if " K- O- XN V0 R0 N0 G0 S- TN:0" in " " + st.split(" H[")[0] else "live"
+                out.append(z + (" " + st[st.index("H["):] if "H[" in st else ""))
+            return " ; ".join(out)
+        return _c17_cond
     if pid == "C09" and stream == "condhist":
         # a read-only Condition that has a second holder: Init / Cond through the variable replace the variable's instance, the held one stays
         return lambda s: " ; ".join(st[st.index("H["):] if "H[" in st else "-" for st in s.split(" ; "))
